@@ -184,6 +184,7 @@ def check_multi(case):
     ff_txt = F.render_ff(spec)
     for seq in case["seqs"]:
         # expected atom list, bonds, per-atom exclusion distance
+        block_excl = []          # exclusion lines of the blocks: the first atom is excluded from the others
         atoms, bonds, resnames, from_itp, anchors = [], [], [], [], []     # anchors: (first backbone-ish atom, last linking atom) per token
         for tok in seq:
             off = len(atoms)
@@ -200,6 +201,8 @@ def check_multi(case):
                 for sec in ("bonds", "constraints"):
                     for at, params, meta in blk["inter"].get(sec, []):
                         bonds.append((off + names.index(at[0]), off + names.index(at[1])))
+                for at, params, meta in blk["inter"].get("exclusions", []):
+                    block_excl.append([off + names.index(a) for a in at])
                 resnames.append(tok)
                 from_itp.append(False)
                 anchors.append((off, off))
@@ -228,6 +231,7 @@ def check_multi(case):
         got = effective(len(atoms), edges, obs["nrexcl"], explicit)
         dist = R.bond_distances(len(atoms), [list(b) for b in bonds])
         want = {frozenset((a, b)) for a in range(len(atoms)) for b, d in dist[a].items() if a != b and 1 <= d <= max(atoms[a], atoms[b])}
+        want |= {frozenset((line[0], o)) for line in block_excl for o in line[1:]}
         if got != want and len(viols) < 20:
             extra = sorted(map(sorted, got - want))[:4]
             lost = sorted(map(sorted, want - got))[:4]
@@ -238,8 +242,8 @@ def check_multi(case):
         if len(used) == 1:
             if obs["nrexcl"] != nre["M"] and len(viols) < 20:
                 viols.append(dict(assertion="uniform-distance-kept", tags=["multi-residue-block"], message=f"nrexcl {obs['nrexcl']}" + info, case=case1, detail={}))
-            if explicit and len(viols) < 20:
-                viols.append(dict(assertion="no-exclusion-invented", tags=["multi-residue-block"], message=f"{len(explicit)} exclusion lines" + info, case=case1, detail={}))
+            if len(explicit) != len(block_excl) and len(viols) < 20:
+                viols.append(dict(assertion="no-exclusion-invented", tags=["multi-residue-block"], message=f"{len(explicit)} exclusion lines, the blocks define {len(block_excl)}" + info, case=case1, detail={}))
         elif len(seq) > 1:
             keys.append(json.dumps([seq, nre], sort_keys=True))
     return dict(evals=evals, keys=keys, violations=viols, stats={"inputs_multi": evals}, sample=dict(nre=nre, sequences=len(case["seqs"])))
@@ -269,7 +273,7 @@ def check_explicit(case):
                     for at, params, meta in blk["inter"].get(sec, []):
                         bonds.append((off + names.index(at[0]), off + names.index(at[1])))
                 for at, params, meta in blk["inter"].get("exclusions", []):
-                    explicit_block.append((off + names.index(at[0]), off + names.index(at[1])))
+                    explicit_block += [(off + names.index(at[0]), off + names.index(o)) for o in at[1:]]
                 first.append(off)
             inter_bonds = list(zip(first, first[1:]))
             bonds += inter_bonds
